@@ -20,8 +20,8 @@ CFG = {
     "trusted_base": [
         "translator/rs2lean.py + rsexpr.py + jobs2.py for TopologyPosition and IntersectionMatrix::{set, set_at_least, set_at_least_if_in_both} (explicit choices: "
         "a &mut match on self binds the named fields as mutable variables and rebuilds the value at the end of the arm; panic! arms = None / state unchanged, "
-        "as in the model; self.0[a][b] = the cell accessors IM.get / IM.set; < on Dimensions = comparison of declaration ranks). Not regenerated: Label "
-        "(indexing a two-element array by a variable), set_locations (logging macro)",
+        "as in the model; self.0[a][b] = the cell accessors IM.get / IM.set; < on Dimensions = comparison of declaration ranks; Label: the two-element array "
+        "geometry_topologies = the fields a, b through Label.get / Label.set, index 0 = a, any other index = b). Not regenerated: set_locations (logging macro)",
         "the matrix computation after graph construction and self-noding is shared by both paths in the code and is represented by the DE-9IM specification (C01)",
         "rstar envelope queries return every stored segment whose envelope intersects the query (assumption on the external crate)",
         "the intersection coordinates recorded on the edges during self-noding are taken from the implementation (line intersection is C11's subject); "
@@ -52,7 +52,8 @@ MANIFEST = {
             "operand positions against buildGraph and against each other.",
     "note": "Translator tie (TRAN2, topologyPosition_eq_source): the TopologyPosition constructors, get, is_empty, is_any_empty, is_area, is_line, flip, "
             "set_all_positions(_if_empty), set_position, set_on_position and IntersectionMatrix::{set, set_at_least, set_at_least_if_in_both} of the model equal the "
-            "terms regenerated from topology_position.rs / intersection_matrix.rs on this run (GeoModel/Gen/GraphGen.lean). "
+            "terms regenerated from topology_position.rs / intersection_matrix.rs on this run (GeoModel/Gen/GraphGen.lean); label_eq_source: the same for the 17 "
+            "methods of Label (label.rs). "
             "Trusted: Lean kernel + audited axioms; harness (sampling) and the dump hook; rstar completeness; intersection coordinates of self-noding come from the "
             "implementation; the Rust-level deep copy is observed, not proved.",
 }
